@@ -701,6 +701,17 @@ class SchedPlan(ToolPlan):
         return jobs
 
 
+class C14Plan(ToolPlan):
+    def build(self, ctx):
+        ok, msg = cargo_build(["c14base"], ctx.log, release=False)
+        return ok, msg
+
+    def jobs(self, ctx):
+        out = os.path.join(ctx.scratch, "c14.json")
+        argv = ["python3", os.path.join(ROOT, "lib", "run_c14.py"), out, os.path.join(ctx.scratch, "c14")]
+        return [dict(name="c14-family", kind="native", argv=argv, out=out, timeout=3000, death_is_violation=False)]
+
+
 class CtorPlan(ToolPlan):
     def jobs(self, ctx):
         out = os.path.join(ctx.scratch, "ctor.json")
@@ -752,6 +763,14 @@ PLANS = {
                                   "payload components validate their own checksum on Deserialize, so value corruption is rejected by the component, not by brood"]),
     "C13": SeqPlan("C13", ["general", "aba", "serde", "clone"], ALL_RIGS, quick=(6, 120, 300), thorough=(8, 1500, 400), miri_quick=0, miri_thorough=8,
                    what="structural audit of verif_dump after every op: slots<->rows bijection, free list = inactive slots, len, unique archetype per identifier, lookup tables"),
+    "C14": C14Plan("C14", ["c14base"], floor=100, level="other",
+                   what="paired program family (gen/gen_c14.py): 83 programs requesting conflicting or thread-unsafe access (two views of one component in views/views, views/entry views, entry/entry positions for all 12 kind pairs with a mutable side; illegal sub-view/super-view pairings; "
+                        "repeated entry queries / entry handles / query results alive at once; conflicting resource views; components and resources outside the registry through 12 APIs; non-Send / non-Sync payloads through World by value and by reference, resources, Result.iter, "
+                        "Result.entries, par_query, run_par_system, run_schedule views / entry views / system state / resource views) must be rejected by rustc with a bound / borrow error; their 83 one-token twins must compile; every program that compiles is executed under Miri "
+                        "(Tree Borrows + data-race detector): a bad program that compiles is reported with the Miri witness",
+                   rule="a case is one generated program compiled against brood built from the current tree; all are distinct; bad programs are non-trivial by construction (each differs from a compiling twin in one token)",
+                   assumptions=["the deciding observation for the rejection half is rustc's verdict on the library's type-level program (the one place where the observed execution is the compiler's); runtime monitoring covers every accepted program under Miri",
+                                "error classes accepted as a proper rejection: trait-bound (E0277/E0599/E0271), index ambiguity (E0283/E0284) and borrow-checker errors"]),
     "C15": SeqPlan("C15", ["res"], ["r5", "r9", "r1"], quick=(5, 120, 300), thorough=(8, 1500, 400), miri_quick=2, miri_thorough=8, miri_profile="res",
                    what="get/get_mut/view_resources/query resource views vs model per resource; resources unchanged by every entity op, clone, clone_from, round trip"),
     "C17": FaultsPlan("C17", floor=2000, level="fault_enumeration",
